@@ -33,6 +33,8 @@ for w in which:
     os.makedirs(dst, exist_ok=True)
     shutil.copy(src, os.path.join(dst, "patch.diff"))
     out = {"id": f"{nid}-{w}", "property": agent_meta.get("property"), "agent": agent_meta.get(w), "checks": {}}
+    if "--merge" in sys.argv and os.path.exists(os.path.join(dst, "meta.json")):
+        out = json.load(open(os.path.join(dst, "meta.json")))          # re-run of some checks after a correction of the machinery
     r = sh(f"git -C /repo apply --whitespace=nowarn {dst}/patch.diff")
     if r.returncode != 0:
         print(f"{nid}-{w}: PATCH DOES NOT APPLY: {r.stderr[:300]}")
@@ -41,11 +43,12 @@ for w in which:
         continue
     t0 = time.time()
     try:
-        r = sh("cd /repo && cargo test --workspace --no-fail-fast --offline 2>&1 | grep -E '^test result' ")
-        passed = sum(int(l.split("ok. ")[1].split(" passed")[0]) for l in r.stdout.splitlines() if "ok. " in l)
-        failed = sum(int(l.split("; ")[1].split(" failed")[0]) for l in r.stdout.splitlines() if " failed" in l)
-        out["baseline"] = f"{passed} passed, {failed} failed"
-        print(f"{nid}-{w}: baseline {out['baseline']}", flush=True)
+        if "--merge" not in sys.argv:
+            r = sh("cd /repo && cargo test --workspace --no-fail-fast --offline 2>&1 | grep -E '^test result' ")
+            passed = sum(int(l.split("ok. ")[1].split(" passed")[0]) for l in r.stdout.splitlines() if "ok. " in l)
+            failed = sum(int(l.split("; ")[1].split(" failed")[0]) for l in r.stdout.splitlines() if " failed" in l)
+            out["baseline"] = f"{passed} passed, {failed} failed"
+            print(f"{nid}-{w}: baseline {out['baseline']}", flush=True)
         for c in checks:
             r = subprocess.run(["./check", c, "quick"], cwd="/verif", capture_output=True, text=True)
             v = [l for l in r.stdout.splitlines() if l.startswith("VIOLATION")]
